@@ -149,10 +149,14 @@ func HarnessC02Empty() {
 	hasElse := vChoice("else", 2) == 1
 	data := map[string]any{}
 	bodies := []string{"<B0>", "<B1>", "<B2>"}
+	shown := []string{"<B0>", "<B1>", "<B2>"}
 	elseBody := "<E>"
 	for i := 0; i <= n; i++ {
-		if vChoice("empty-body", 2) == 1 {
-			bodies[i] = ""
+		switch vChoice("empty-body", 3) {
+		case 1:
+			bodies[i], shown[i] = "", ""
+		case 2: // a body that ends in an assignment (it renders nothing itself)
+			bodies[i], shown[i] = bodies[i]+"{{ zz = 1 }}", bodies[i]
 		}
 	}
 	if hasElse && vChoice("empty-else", 2) == 1 {
@@ -180,7 +184,7 @@ func HarnessC02Empty() {
 			construct += "@elseif(" + c02Names[i] + ")" + bodies[i]
 		}
 		if c && !chosen {
-			want, chosen = bodies[i], true
+			want, chosen = shown[i], true
 		}
 	}
 	if hasElse {
